@@ -722,7 +722,7 @@ func checkUnique(l *listFn) []sideIssue {
 				if strings.HasPrefix(other, list+"[") && strings.Contains(other, "[") {
 					eqOK = true
 					// bucket of the same element's hash
-					if !strings.Contains(other, "(" + cur + ")") {
+					if !strings.Contains(other, "("+cur+")") {
 						out = append(out, l.issue(as, "bucket-foreign", "compares the element with %s, which is not drawn from the bucket of its own hash", other))
 					}
 				}
